@@ -63,6 +63,17 @@ class CallsMixin:
                     if con is None:
                         raise Unsupported("no contract for %s.%s" % (ci.name, f.attr), node)
                     return self.call_contract_node(con, node, st, None)
+            if f.attr == '__class__':
+                # error.__class__(text): a new exception of the same class (single-string construction, checked over the class table)
+                outs = []
+                for (s, recv) in self.ev(f.value, st):
+                    if not self.known(s, self.is_kind(s, recv, Z.K_OBJ)):
+                        raise Unsupported("__class__ call on non-object", node)
+                    for (s2, pos, kw) in self.eval_args(node, s):
+                        msg = pos[0] if pos else Z.mk_s('')
+                        s3, e = self.new_exception(s2, None, msg=msg, cid_term=s2.heap.class_of(Z.addr(recv)))
+                        outs.append((s3, e))
+                return outs
             outs = []
             for (s, recv) in self.ev(f.value, st):
                 outs.extend(self.call_method(node, s, recv))
@@ -777,10 +788,19 @@ class CallsMixin:
         return self.truth(s, v)
 
     def modset(self, mods, st, env):
-        """denotation of a modifies clause in state st: (list of ref Vals, list of (arr, n) element sets)"""
+        """denotation of a modifies clause in state st: (list of (ref Val, guard), list of (arr, n, list Val, guard)).
+        An entry may be guarded: "elems(L) if cond else nothing"."""
         refs, sets = [], []
         for m in (mods or []):
             tree = ast.parse(m.strip(), mode='eval').body
+            guard = z3.BoolVal(True)
+            if isinstance(tree, ast.IfExp):
+                self.spec += 1
+                try:
+                    guard = self.truth(st, self.ev1(tree.test, st.clone(env=env)))
+                finally:
+                    self.spec -= 1
+                tree = tree.body
             if isinstance(tree, ast.Constant) and tree.value in ('nothing', None):
                 continue
             self.spec += 1
@@ -788,9 +808,9 @@ class CallsMixin:
                 if isinstance(tree, ast.Call) and isinstance(tree.func, ast.Name) and tree.func.id == 'elems':
                     lst = self.ev1(tree.args[0], st.clone(env=env))
                     la = Z.addr(lst)
-                    sets.append((st.heap.elems(la), st.heap.len_of(la), lst))
+                    sets.append((st.heap.elems(la), st.heap.len_of(la), lst, guard))
                 else:
-                    refs.append(self.ev1(tree, st.clone(env=env)))
+                    refs.append((self.ev1(tree, st.clone(env=env)), guard))
             finally:
                 self.spec -= 1
         return refs, sets
@@ -804,11 +824,11 @@ class CallsMixin:
         refs, sets = self.modset(mods, st, env)
 
         def inmod(a):
-            parts = [z3.And(Z.is_ref(v), Z.addr(v) == a) for v in refs]
-            for (arr, n, lst) in sets:
+            parts = [z3.And(g, Z.is_ref(v), Z.addr(v) == a) for (v, g) in refs]
+            for (arr, n, lst, g) in sets:
                 j = z3.Int('j!mod')
                 e = z3.Select(arr, j)
-                parts.append(z3.And(Z.is_ref(lst), z3.Exists([j], z3.And(j >= 0, j < n, Z.is_ref(e), Z.addr(e) == a))))
+                parts.append(z3.And(g, Z.is_ref(lst), z3.Exists([j], z3.And(j >= 0, j < n, Z.is_ref(e), Z.addr(e) == a))))
             return z3.Or(parts) if parts else z3.BoolVal(False)
         inmod.facts = []
         inmod.obligations = []
@@ -824,15 +844,15 @@ class CallsMixin:
         if not sets:
             upd = {}
             hf = Heap.fresh('Hc')
-            isref = {k: self.known(st, Z.is_ref(v)) for k, v in enumerate(refs)}
+            isref = {k: (z3.is_true(z3.simplify(g)) and self.known(st, Z.is_ref(v))) for k, (v, g) in enumerate(refs)}
             for f in FIELDS:
                 arr = getattr(h, f)
-                for k, v in enumerate(refs):
+                for k, (v, g) in enumerate(refs):
                     if f in ('kind', 'klass'):
                         continue        # objects do not change kind or class
                     a = Z.addr(v)
                     upd_arr = z3.Store(arr, a, z3.Select(getattr(hf, f), a))
-                    arr = upd_arr if isref[k] else z3.If(Z.is_ref(v), upd_arr, arr)
+                    arr = upd_arr if isref[k] else z3.If(z3.And(g, Z.is_ref(v)), upd_arr, arr)
                 upd[f] = arr
             upd['alloc'] = new_alloc
             return Heap(**upd), facts
@@ -1081,7 +1101,9 @@ class CallsMixin:
         """keys_exactly(d, 'a', 'b'): key set is exactly these"""
         d = self.ev1(node.args[0], st)
         ks = [self.nk(self.ev1(a, st)) for a in node.args[1:]]
-        return Z.mk_b(z3.And(st.heap.keys(Z.addr(d)) == keyset_of(ks), st.heap.size_of(Z.addr(d)) == len(ks)))
+        kq = z3.Const('k!ke', Val)
+        keys = st.heap.keys(Z.addr(d))
+        return Z.mk_b(z3.ForAll([kq], z3.Select(keys, kq) == z3.Or([kq == x for x in ks])))
 
     def spec_keys_subset(self, node, st):
         d = self.ev1(node.args[0], st)
